@@ -33,9 +33,11 @@ VARIABLES s, ci, idx
 
 NumAlphabet(i) == NumCfg(i).atoms \cup NumOps \cup NumOpen \cup {")", ","}
 LogAlphabet(i) == LogCfg(i).atoms \cup CmpOps \cup {"&&", "||", "~", "(", ")"}
-TmplCfg(i) == CASE i = 1 -> {"T", "{", "}", "Ra", "Rs", "S13", "F.2f", "F>8s"}
+TmplCfg(i) == CASE i = 3 -> {"T", "{", "}", "Rs", "Rv", "S13", "S1", "F.2f"}     \* (pruned runs: several references
+                [] i = 4 -> {"T", "{", "}", "Rm", "S01", "S1", "F.2f"}          \*  to one node in one template)
+                [] i = 1 -> {"T", "{", "}", "Ra", "Rs", "S13", "F.2f", "F>8s"}
                 [] i = 2 -> {"T", "{", "}", "Rv", "Rb", "S1", "F03d", "F.3g"}
-NTmplCfg == 2
+NTmplCfg == 4
 Alphabet(i) == CASE Mode = "num" -> NumAlphabet(i) [] Mode = "log" -> LogAlphabet(i) [] Mode = "tmpl" -> TmplCfg(i)
 EnvOf(i) == CASE Mode = "num" -> NumCfg(i).env [] Mode = "log" -> LogCfg(i).env [] OTHER -> "plain"
 
@@ -88,8 +90,27 @@ LScan(x, i, ex, st) ==
 LViable(x) == LET r == LScan(x, 1, "opdn", <<>>) IN
               r.ok /\ Len(x) + (IF r.ex = "opr" THEN 0 ELSE 1) + SumCost(r.st) <= MaxLen
 
+\* templates made of whole segments only: plain text "T" or a reference group { R [S] [F] }
+\* state: "free" | "brace" | "ref" | "slice" | "fmt"
+RECURSIVE TScan(_, _, _)
+TScan(x, i, st) ==
+  IF i > Len(x) THEN [ok |-> TRUE, st |-> st]
+  ELSE LET t == x[i] IN
+  CASE st = "free"  -> IF t = "T" THEN TScan(x, i + 1, "free") ELSE IF t = "{" THEN TScan(x, i + 1, "brace")
+                       ELSE [ok |-> FALSE, st |-> st]
+    [] st = "brace" -> IF t \in TRefs THEN TScan(x, i + 1, "ref") ELSE [ok |-> FALSE, st |-> st]
+    [] st = "ref"   -> IF t \in TSlices THEN TScan(x, i + 1, "slice") ELSE IF t \in TFmts THEN TScan(x, i + 1, "fmt")
+                       ELSE IF t = "}" THEN TScan(x, i + 1, "free") ELSE [ok |-> FALSE, st |-> st]
+    [] st = "slice" -> IF t \in TFmts THEN TScan(x, i + 1, "fmt") ELSE IF t = "}" THEN TScan(x, i + 1, "free")
+                       ELSE [ok |-> FALSE, st |-> st]
+    [] st = "fmt"   -> IF t = "}" THEN TScan(x, i + 1, "free") ELSE [ok |-> FALSE, st |-> st]
+TViable(x) == LET r == TScan(x, 1, "free") IN
+              r.ok /\ Len(x) + (CASE r.st = "free" -> 0 [] r.st = "brace" -> 2 [] OTHER -> 1) <= MaxLen
+              \* no two plain-text tokens in a row (they add nothing)
+              /\ \A i \in 1..(Len(x) - 1) : ~(x[i] = "T" /\ x[i + 1] = "T")
+TComplete == TScan(s, 1, "free").ok /\ TScan(s, 1, "free").st = "free"
 Viable(x) == IF ~Prune THEN TRUE
-             ELSE CASE Mode = "num" -> NViable(x) [] Mode = "log" -> LViable(x) [] OTHER -> TRUE
+             ELSE CASE Mode = "num" -> NViable(x) [] Mode = "log" -> LViable(x) [] OTHER -> TViable(x)
 
 (***************************************************************************)
 (* State space                                                             *)
@@ -112,21 +133,21 @@ Out(v) == IF v.st = "ok" THEN (IF v.isq THEN [k |-> "q", q |-> v.q] ELSE [k |-> 
                THEN [k |-> "raise"]       \* (8b695be: sums across inverse dimensions are refused)
           ELSE [k |-> "skip"]
 Raise == [k |-> "raise"]
-BaseUnits == <<"m", "s", "g">>
+BaseUnits == <<"m", "s", "g", "rad">>
 \* a unit of another dimension than dim - and not of the inverse dimension either, between which
 \* the units module converts (C04): one base dimension that dim does not contain
-WrongDim(dim) == IF dim[1] = 0 THEN <<1, 0, 0>> ELSE IF dim[2] = 0 THEN <<0, 1, 0>>
-                 ELSE IF dim[3] = 0 THEN <<0, 0, 1>> ELSE <<dim[1] + 1, 0, 0>>
+WrongDim(dim) == IF dim[1] = 0 THEN <<1, 0, 0, 0>> ELSE IF dim[2] = 0 THEN <<0, 1, 0, 0>>
+                 ELSE IF dim[3] = 0 THEN <<0, 0, 1, 0>> ELSE <<dim[1] + 1, 0, 0, 0>>
 WrongUnits(dim) == LET w == WrongDim(dim) IN
-                   <<IF w[1] # 0 THEN "m" ELSE "", IF w[2] # 0 THEN "s" ELSE "", IF w[3] # 0 THEN "g" ELSE "">>
+                   <<IF w[1] # 0 THEN "m" ELSE "", IF w[2] # 0 THEN "s" ELSE "", IF w[3] # 0 THEN "g" ELSE "", "">>
 Req(us, dim, out) == [us |-> us, dim |-> dim, out |-> out, sc |-> ReqScale(us, dim)]
 NumReqs(v, env) ==
-  IF v.dim = NoDim THEN << Req(<<"", "", "">>, NoDim, Out(v)), Req(WrongUnits(NoDim), WrongDim(NoDim), Raise) >>
+  IF v.dim = NoDim THEN << Req(<<"", "", "", "">>, NoDim, Out(v)), Req(WrongUnits(NoDim), WrongDim(NoDim), Raise) >>
   ELSE << Req(BaseUnits, v.dim, Out(VIn(v, BaseUnits))),
-          Req(<<"cm", "ms", "kg">>, v.dim, Out(VIn(v, <<"cm", "ms", "kg">>))),
-          Req(<<"km", "s", "kg">>, v.dim, Out(VIn(v, <<"km", "s", "kg">>))),
+          Req(<<"cm", "ms", "kg", "mrad">>, v.dim, Out(VIn(v, <<"cm", "ms", "kg", "mrad">>))),
+          Req(<<"km", "s", "kg", "rad">>, v.dim, Out(VIn(v, <<"km", "s", "kg", "rad">>))),
           Req(WrongUnits(v.dim), WrongDim(v.dim), Raise) >>
-       \o (IF env = "custom" THEN << Req(<<"len", "s", "g">>, v.dim, Out(VIn(v, <<"len", "s", "g">>))) >> ELSE <<>>)
+       \o (IF env = "custom" THEN << Req(<<"len", "s", "g", "rad">>, v.dim, Out(VIn(v, <<"len", "s", "g", "rad">>))) >> ELSE <<>>)
 UsesCustom(x) == \E i \in 1..Len(x) : x[i] \in AllAtomToks /\ AT(x[i]).u = "len"
 
 NumRecord ==
@@ -135,6 +156,8 @@ NumRecord ==
       mv == NEval(mt)
   IN [mode |-> "num", id |-> idx, ci |-> ci, env |-> NumCfg(ci).env, s |-> s, cls |-> cls, itree |-> it, mtree |-> mt,
       dim |-> v.dim,
+      \* the class ("any" | "trig") from which the harness may pick the function of each f1( occurrence
+      fcls |-> IF it # NERR THEN NFnClasses(it) ELSE NFnClasses(mt),
       reqs |-> IF cls = "value" THEN NumReqs(v, NumCfg(ci).env) ELSE <<>>,
       \* what the machine predicts for the value in base units (drift only)
       mach |-> IF mt = NERR THEN Raise
@@ -181,7 +204,9 @@ TmplRecord ==
 TmplRefines == TClass(s) = "value" => (TMach(s) = TIdeal(s) \/ TFeatures(s) # {})
 
 ExtraNodes == << [name |-> "s", ty |-> "str", str |-> "Hello", arr |-> <<>>, u |-> ""],
-                 [name |-> "v", ty |-> "float", str |-> "", arr |-> <<Q(15, 1, -1), Q(25, 1, -1), Q(35, 1, -1)>>, u |-> "cm"] >>
+                 [name |-> "v", ty |-> "float", str |-> "", arr |-> <<Q(15, 1, -1), Q(25, 1, -1), Q(35, 1, -1)>>, u |-> "cm"],
+                 [name |-> "mm", ty |-> "float2", str |-> "", u |-> "cm",
+                  arr |-> << <<Q(15, 1, -1), Q(25, 1, -1)>>, <<Q(35, 1, -1), Q(45, 1, -1)>> >>] >>
 TmplToks == {"T", "{", "}"} \cup TRefs \cup TSlices \cup TFmts
 Meta == [mode |-> "meta",
          atoms |-> [t \in AllAtomToks |-> AT(t)],
@@ -203,6 +228,6 @@ Refines ==
          [] Mode = "log" -> LET i == LogInfo IN
                             /\ Printed(i.ok /\ i.cls # "illtyped") => PrintT(ToJson(LogRecord(i)))
                             /\ LogRefines(i)
-         [] Mode = "tmpl" -> /\ (Printed(TRUE) \/ (Emit /\ OpensRef)) => PrintT(ToJson(TmplRecord))
+         [] Mode = "tmpl" -> /\ (Printed(TComplete) \/ (Emit /\ ~Prune /\ OpensRef)) => PrintT(ToJson(TmplRecord))
                              /\ TmplRefines
 =============================================================================
